@@ -251,11 +251,11 @@ noncomputable def cmrfLogpdf (m n : ℕ) (D : ℕ → ℕ → ℝ) (s : ℝ) (x 
   -(m : ℝ) * Real.log Real.pi
     + ∑ k ∈ range m, eval (env4 (matVec n D (fun j => x j - l j) k) s 0 0) (cmrfComp (var 0) (var 1))
 
-/-- The derivative of `CMRF.logpdf` is `cmrfGradTrue` (difference taken of `x - location`):
-    every operator `D` (`m × n`), every location, scale > 0. -/
-theorem cmrf_gradTrue_eq_deriv (m n : ℕ) (D : ℕ → ℕ → ℝ) (s : ℝ) (hs : 0 < s) (x l : ℕ → ℝ)
+/-- **CMRF, every difference operator `D` (`m × n`: any boundary condition, 1-D or 2-D), every
+    location, scale > 0, every size**: `CMRF._gradient` is the derivative of `CMRF.logpdf`. -/
+theorem cmrf_grad_eq_deriv (m n : ℕ) (D : ℕ → ℕ → ℝ) (s : ℝ) (hs : 0 < s) (x l : ℕ → ℝ)
     (i : ℕ) (hi : i < n) :
-    HasDerivAt (fun t => cmrfLogpdf m n D s (Function.update x i t) l) (cmrfGradTrue m n D s x l i) (x i) := by
+    HasDerivAt (fun t => cmrfLogpdf m n D s (Function.update x i t) l) (cmrfGrad m n D s x l i) (x i) := by
   unfold cmrfLogpdf
   have hsum := hasDerivAt_sum_comp m
     (fun k t => ∑ b ∈ range n, D k b * (Function.update x i t b - l b)) (fun k => D k i)
@@ -268,38 +268,30 @@ theorem cmrf_gradTrue_eq_deriv (m n : ℕ) (D : ℕ → ℕ → ℝ) (s : ℝ) (
   have h2 := hsum.const_add (-(m : ℝ) * Real.log Real.pi)
   simp only [matVec_eq]
   refine h2.congr_deriv ?_
-  simp only [cmrfGradTrue, cmrfGradCode, sumTo_eq_sum, matVec_eq]
+  simp only [cmrfGrad, sumTo_eq_sum, matVec_eq]
   apply Finset.sum_congr rfl; intro k _
   congr 1
   simp [cmrfCompGrad]
   ring
 
-/-- **`CMRF._gradient` as coded, partial result**: it is the derivative when `location = 0`
-    (the code evaluates `D @ val`, not `D @ (val - location)`). -/
-theorem cmrf_grad_partial (m n : ℕ) (D : ℕ → ℕ → ℝ) (s : ℝ) (hs : 0 < s) (x l : ℕ → ℝ)
-    (hl : ∀ j, l j = 0) (i : ℕ) (hi : i < n) :
-    HasDerivAt (fun t => cmrfLogpdf m n D s (Function.update x i t) l) (cmrfGradCode m n D s x i) (x i) := by
-  have h := cmrf_gradTrue_eq_deriv m n D s hs x l i hi
-  have e : cmrfGradTrue m n D s x l i = cmrfGradCode m n D s x i := by
-    simp [cmrfGradTrue, hl]
-  rwa [e] at h
+example : HasDerivAt (fun t => cmrfLogpdf 1 2 (fun _ j => if j = 0 then 1 else -1) 2 (Function.update (fun _ => (1:ℝ)) 0 t) (fun _ => 3))
+    (cmrfGrad 1 2 (fun _ j => if j = 0 then (1:ℝ) else -1) 2 (fun _ => 1) (fun _ => 3) 0) ((fun _ => (1:ℝ)) 0) :=
+  cmrf_grad_eq_deriv 1 2 _ 2 (by norm_num) _ _ 0 (by norm_num)
 
-example : HasDerivAt (fun t => cmrfLogpdf 1 2 (fun _ j => if j = 0 then 1 else -1) 2 (Function.update (fun _ => (1:ℝ)) 0 t) (fun _ => 0))
-    (cmrfGradCode 1 2 (fun _ j => if j = 0 then (1:ℝ) else -1) 2 (fun _ => 1) 0) ((fun _ => (1:ℝ)) 0) :=
-  cmrf_grad_partial 1 2 _ 2 (by norm_num) _ _ (fun _ => rfl) 0 (by norm_num)
-
-/-- **Negation witness**: with a non-zero location the coded CMRF gradient is *not* the derivative
-    (one difference `x₀ - x₁`, scale 1, `x = (1, 0)`, `location = (1, 0)`: derivative `0`, code returns `-1`). -/
-theorem cmrf_grad_counterexample :
+/-- **Regression witness** (the defect of the pinned snapshot, repaired by /repo commit 019a74f):
+    differentiating through `D @ val` instead of `D @ (val - location)` is *not* the derivative when
+    the location is non-zero (one difference `x₀ - x₁`, scale 1, `x = location = (1, 0)`:
+    derivative `0`, unshifted formula `-1`).  This is why the generators keep non-zero locations. -/
+theorem cmrf_unshifted_not_deriv :
     ¬ HasDerivAt (fun t => cmrfLogpdf 1 2 (fun _ j => if j = 0 then 1 else -1) 1
           (Function.update (fun j => if j = 0 then (1:ℝ) else 0) 0 t) (fun j => if j = 0 then 1 else 0))
-        (cmrfGradCode 1 2 (fun _ j => if j = 0 then (1:ℝ) else -1) 1 (fun j => if j = 0 then 1 else 0) 0)
+        (cmrfGradUnshifted 1 2 (fun _ j => if j = 0 then (1:ℝ) else -1) 1 (fun j => if j = 0 then 1 else 0) 0)
         ((fun j => if j = 0 then (1:ℝ) else 0) 0) := by
   intro h
-  have ht := cmrf_gradTrue_eq_deriv 1 2 (fun _ j => if j = 0 then (1:ℝ) else -1) 1 (by norm_num)
+  have ht := cmrf_grad_eq_deriv 1 2 (fun _ j => if j = 0 then (1:ℝ) else -1) 1 (by norm_num)
     (fun j => if j = 0 then (1:ℝ) else 0) (fun j => if j = 0 then 1 else 0) 0 (by norm_num)
   have := h.unique ht
-  simp [cmrfGradTrue, cmrfGradCode, sumTo, matVec, List.range, List.range.loop] at this
+  simp [cmrfGrad, cmrfGradUnshifted, sumTo, matVec, List.range, List.range.loop] at this
 
 /-! ## 5. likelihoods, posteriors -/
 
